@@ -144,7 +144,8 @@ class World(WsWorld):
             binary = ch.flag("binary")
             op = {"api": api, "len": L, "binary": binary, "fragsize": fs, "sync": ch.flag("sync", 0.12),
                   "dnc": ch.flag("doNotCompress", 0.2), "incompr": ch.flag("incompressible", 0.2),
-                  "token": "%s%d" % (ep.name, i)}
+                  "token": "%s%d" % (ep.name, i),
+                  "interject": api in ("frame", "stream") and ch.flag("whole-message-before-first-frame", 0.2)}
             if api == "frame":
                 op["cuts"] = [ch.choose(max(1, L + 1), "cut") for _ in range(ch.choose(4, "ncuts"))]
             elif api == "stream":
@@ -212,6 +213,7 @@ class World(WsWorld):
             elif api == "frame":
                 cuts = sorted(set(c for c in op["cuts"] if 0 < c < L))
                 p.beginMessage(binary, doNotCompress=op["dnc"])
+                self.interject(ep, op)
                 prev = 0
                 for c in cuts + [L]:
                     p.sendMessageFrame(payload[prev:c], sync=op["sync"])
@@ -221,6 +223,7 @@ class World(WsWorld):
             elif api == "stream":
                 # streaming API sends raw octets: only meaningful uncompressed
                 p.beginMessage(binary, doNotCompress=True)
+                self.interject(ep, op)
                 nf = op["nframes"]
                 bounds = [L * (i + 1) // nf for i in range(nf)]
                 prev = 0
@@ -262,6 +265,16 @@ class World(WsWorld):
         ep.sent.append((payload, binary))
         if op["sync"]:
             self.run.probe("synced-write")
+
+    def interject(self, ep, op):
+        """A whole message sent after beginMessage() but before the first frame of the begun message (e.g. a reply
+        issued from onMessage meanwhile): it precedes the begun message on the wire."""
+        if not op.get("interject"):
+            return
+        small = make_payload(op["token"] + "i", 33, True)
+        ep.p.sendMessage(small, True, doNotCompress=not op["dnc"])
+        ep.sent.append((small, True))
+        self.run.probe("whole-message-between-begin-and-first-frame")
 
     # --- oracles ---------------------------------------------------------------------------------------
     def received(self, ep):
